@@ -1,7 +1,9 @@
 import AITB.Model.Proto
 import AITB.Model.Sampling
 import AITB.Model.SamplingModels
+import AITB.Model.SamplingChain
 import AITB.Gen.C08Variant
+import AITB.Gen.C08Engines
 open AITB AITB.Sampling
 
 namespace DrvC08
@@ -59,6 +61,8 @@ def sparseOne (comp : String) (n : Nat) (row rest : List (Nat × Rat)) (v : Verd
   let allv := vals ++ rest.map (·.2)
   if !exact && decide (bpMargin allv u < tolCmp) then { v with tag := "illc" } else
   let m := sampleSparseImpl n row rest u
+  -- assumption of the theorems (Eigen row-major storage): the iterator visits the stored columns in ascending order
+  let v := v.diffIf (!((row.zip (row.drop 1)).all (fun (a, b) => decide (a.1 < b.1)))) s!"{comp} stored_columns_not_ascending {row.map (·.1)}"
   let v := match posOf row r with
     | none => v.failIf true s!"{comp} outside_support column={r} u={ratStr u} rowsum={ratStr vals.sum}"
     | some k =>
@@ -100,16 +104,92 @@ def proj : P String := do
   let v := v.diffIf (!(closeL (projectImpl vin) out)) s!"{comp} branch={br} model={(projectImpl vin).map ratStr} impl={out.map ratStr}"
   return v.render
 
-/-- `isprob v… | template dense sparse` : the three `isProbability` overloads on one row (model tie only) -/
+/-- stored entries of a dense row as a compressed sparse matrix holds them (zeros are not stored; an explicitly
+    stored zero changes nothing in `isProbability`) -/
+def storedOf (l : List Rat) : List (Nat × Rat) := ((List.range l.length).zip l).filter (fun e => e.2 != 0)
+
+/-- the property-level reading of "accepted by isProbability": no negative entry, |sum - 1| ≤ 1e-6 — with a
+    conditioning margin: `some true` = valid with margin, `some false` = invalid with margin, `none` = too close to call -/
+def propTol : Rat := 1 / 1000000     -- the property's own number: "row sums in [1-1e-6, 1+1e-6]" (not read from the source)
+def rowVerdict (l : List Rat) : Option Bool :=
+  if l.any (fun x => decide (x < 0)) then some false
+  else if decide (absQ (absQ (l.sum - 1) - propTol) < tolCmp) then none
+  else some (decide (absQ (l.sum - 1) ≤ propTol))
+
+def tableVerdict (rows : List (List Rat)) : Option Bool :=
+  let vs := rows.map rowVerdict
+  if vs.any (· == some false) then some false else if vs.any (· == none) then none else some true
+
+/-- clause on one overload's answer: it must be the property-level verdict -/
+def isprobClause (comp what : String) (expect impl : Bool) (v : Verdict) : Verdict :=
+  (v.failIf (impl && !expect) s!"{comp} accepts_invalid overload={what}").failIf (!impl && expect) s!"{comp} rejects_valid overload={what}"
+
+/-- `isprob v… | template dense sparse` : the three `isProbability` overloads on one row -/
 def isprob : P String := do
   let l ← P.qs; P.bar; let t ← P.bool; let md ← P.bool; let ms ← P.bool; P.eof
   let comp := "isProbability"
-  let absSum := (l.map absQ).sum
-  if decide (probMargin l < tolCmp) || decide (absQ (absQ (absSum - 1) - Gen.equalToleranceSmall) < tolCmp) then return "skip ill_conditioned" else
+  match rowVerdict l with
+  | none => return "skip ill_conditioned"
+  | some e =>
   let v : Verdict := { tag := if isProb l then "isprob-accept" else "isprob-reject" }
+  let v := isprobClause comp "template" e t v
+  let v := isprobClause comp "Matrix2D" e md v
+  let v := isprobClause comp "SparseMatrix2D" e ms v
   let v := v.diffIf (isProb l != t) s!"{comp} template model={isProb l} impl={t}"
-  let v := v.diffIf (isProb l != md) s!"{comp} Matrix2D model={isProb l} impl={md}"
-  let v := v.diffIf (isProbSparse l != ms) s!"{comp} SparseMatrix2D model={isProbSparse l} impl={ms}"
+  let v := v.diffIf (isProbMatrix2D [l] != md) s!"{comp} Matrix2D model={isProbMatrix2D [l]} impl={md}"
+  let v := v.diffIf (isProbSparse2D [storedOf l] != ms) s!"{comp} SparseMatrix2D model={isProbSparse2D [storedOf l]} impl={ms}"
+  return v.render
+
+/-- `isprobm D (R rows…)*D | t3 m3 s3 t2 m2 s2` : the 3-D overloads on the whole table (template, Matrix3D, SparseMatrix3D) and
+    the 2-D overloads on the slice holding the defective row; the slice index is not on the line: the 2-D answers are
+    checked against "some slice" only through the clause (a 2-D overload accepting while the table has no valid slice …) -/
+def isprobm : P String := do
+  let t ← P.list P.qss; P.bar
+  let t3 ← P.bool; let m3 ← P.bool; let s3 ← P.bool; let t2 ← P.bool; let m2 ← P.bool; let s2 ← P.bool; P.eof
+  let comp := "isProbability"
+  match tableVerdict t.flatten with
+  | none => return "skip ill_conditioned"
+  | some e =>
+  let v : Verdict := { tag := if e then "isprobm-accept" else "isprobm-reject" }
+  let v := isprobClause comp "template3D" e t3 v
+  let v := isprobClause comp "Matrix3D" e m3 v
+  let v := isprobClause comp "SparseMatrix3D" e s3 v
+  -- the slice the 2-D overloads were called on holds the only defective row (if any): same verdict as the table
+  let v := isprobClause comp "template2D" e t2 v
+  let v := isprobClause comp "Matrix2D" e m2 v
+  let v := isprobClause comp "SparseMatrix2D" e s2 v
+  let v := v.diffIf (isProbTable3D t != t3) s!"{comp} template3D model={isProbTable3D t} impl={t3}"
+  let v := v.diffIf (isProbMatrix3D t != m3) s!"{comp} Matrix3D model={isProbMatrix3D t} impl={m3}"
+  let v := v.diffIf (isProbSparse3D (t.map (·.map storedOf)) != s3) s!"{comp} SparseMatrix3D model={isProbSparse3D (t.map (·.map storedOf))} impl={s3}"
+  return v.render
+
+/-- `seeded <ctor> orow… us… | obs…` : the observations of a freshly built POMDP object against the draws of an
+    mt19937 seeded with the Seeder seed the object is expected to take -/
+def seeded : P String := do
+  let ctor ← P.tok; let orow ← P.qs; let us ← P.qs; P.bar; let obs ← P.nats; P.eof
+  if us.length != obs.length then P.fail
+  let v : Verdict := { tag := "seeded" }
+  let bad := (us.zip obs).filter (fun (u, o) => !(intervalSpec orow u o))
+  let v := v.failIf (!bad.isEmpty) s!"{ctor} engine_not_seeded_from_Seeder mismatches={bad.length}/{us.length} expected={us.map (sampleDense orow)} impl={obs}"
+  return v.render
+
+/-- `traj mdp|pomdp dense|sparse A T… Ob… s0 us… | outcomes…` : a rollout on one object; action = (sum of earlier outcomes) mod A -/
+def traj : P String := do
+  let mode ← P.tok; let kind ← P.tok; let A ← P.nat
+  let T ← P.list P.qss; let Ob ← P.list P.qss; let s0 ← P.nat; let us ← P.qs; P.bar
+  let out ← P.nats; P.eof
+  if us.length != out.length || A == 0 then P.fail
+  let comp := s!"Model::rollout-{mode}-{kind}"
+  let Tf : Nat → Nat → List Rat := fun a s => (T.getD a []).getD s []
+  let Of : Nat → Nat → List Rat := fun a s => (Ob.getD a []).getD s []
+  let pol : List Nat → Nat := fun h => h.sum % A
+  let row : List Nat → List Rat := if mode == "pomdp" then pomdpRow Tf Of pol s0 else mdpRow Tf pol s0
+  let v : Verdict := { tag := s!"traj-{mode}-{kind}" }
+  -- clause, step by step, on the row selected by the IMPLEMENTATION's own history
+  let v := (List.range out.length).foldl (fun v i =>
+    if v.tag == "illc" then v else denseOne comp (row (out.take i)) v (us.getD i 0, out.getD i 0)) v
+  let m := chainSample row us
+  let v := if v.tag == "illc" then v else v.diffIf (m != out) s!"{comp} model={m} impl={out}"
   return v.render
 
 /-- `rand draws… | out… words` -/
@@ -383,6 +463,9 @@ def handle (toks : List String) : String :=
     | "beta" :: rest => P.run beta rest
     | "projx" :: rest => P.run projx rest
     | "inst" :: rest => P.run inst rest
+    | "isprobm" :: rest => P.run isprobm rest
+    | "seeded" :: rest => P.run seeded rest
+    | "traj" :: rest => P.run traj rest
     | _ => none
   r.getD "bad-op"
 
